@@ -183,6 +183,9 @@ func genMap(r *rand.Rand, sc *schema.Schema, t *schema.Map, m genMode, depth int
 		}
 		for i := 0; i < n; i++ {
 			k := []string{"ka", "kb", "kc"}[r.Intn(3)]
+			if r.Intn(12) == 0 {
+				k = "" // the empty string is a key like any other
+			}
 			if len(t.Fields) > 0 && r.Intn(2) == 0 {
 				// an undeclared entry that sorts after the declared fields
 				k = []string{"zy", "zz"}[r.Intn(2)]
